@@ -18,7 +18,7 @@ RULE = (
     "1e-2} for |q| L in {1e-3, 1, 7.3, 30}; densities {1, 2.5}; one full batch, every ordered batch of length <=3 over the classes "
     "{zero, along a normal, perpendicular to an edge, axis, generic}, (1,3) singles and a batch of 50 - every returned amplitude is "
     "compared with an independent Fourier transform (signed simplices to the origin, divided differences of exp by Opitz's formula; "
-    "closed forms for voxel solids and spheres).  non-trivial = q != 0 evaluation."
+    "closed forms for voxel solids and spheres).  non-trivial = distinct (shape, placement, q != 0) triple of the full batch."
 )
 ASSUMPTIONS = ["trusted base additionally: scipy.linalg.expm inside the reference (validated against the voxel/box closed form in every VOX case)", "'all q' replaced by the finite direction x magnitude alphabet"]
 TRUSTED = ["scipy.linalg.expm (reference only)"]
@@ -303,7 +303,9 @@ def run_case(case):
         rep.peak(label, float(np.max(err / tolq)) if np.all(np.isfinite(err)) else 1e9)
         badi = np.where(~(err <= tolq))[0]
         rep.traces += 1
-        rep.nontrivial += int(np.sum(np.any(np.asarray(qarr) != 0, axis=1)))
+        if name == "full-batch" and density == 1.0:
+            # distinct (shape, placement, q != 0) triples; the batches below re-use five of them
+            rep.nontrivial += int(np.sum(np.any(np.asarray(qarr) != 0, axis=1)))
         if len(badi) == 0:
             rep.ok("amplitude", len(qarr))
             return
